@@ -20,6 +20,7 @@ every request on the thread shares.
 | `Step.setRoot` / `Step.unset` | `Owner::new_root` → `Owner::set` (permanent) / `Owner::unset` (clears OWNER only if it is this owner) |
 | `Step.yield`                  | an `.await` that returns `Pending`: the poll ends                                               |
 | `Step.spawn wr sb p`          | a spawn site: `wr` = the future is wrapped in `ScopedFuture::new` (captures `Owner::current()` and `Observer::get()`), `sb` = in `Sandboxed::new` (captures the arena); e.g. `spawn_local_scoped` = (true,true), `reactive_graph::spawn` = (false,true), a bare `Executor::spawn` = (false,false) |
+|                               | after the repairs (hooks/fix-c20-1/3/4): `ArcAction::dispatch` = (true,true) (it was (false,true): F-C20-3); the chunk futures of a `Suspend` outside `Suspense` render their view under the captured owner = `withOwner` (they were unwrapped tasks: F-C20-1/2); `Owner` drop/cleanup runs under the owner's own arena and restores the previous one (`Arena::enter`; it ran under the ambient arena: F-C20-4). The table of real call sites is `Driver/C20.lean` (`compile`, field `old` = the table before the repairs) |
 | `Task`                        | a spawned future / a chunk future polled by the response stream                                 |
 | `enterAmb` / `exitAmb`        | `Sandboxed::poll` (`Arena::set(captured)`), then `ScopedFuture::poll` = `owner.with(|| observer.with_observer(|| fut.poll(cx)))`; on exit OWNER/OBSERVER are restored, the arena stays |
 | `pollTask`, `run`             | the executor polling one task; an interleaving is the list of task indices polled                |
